@@ -4,7 +4,7 @@
    the implementation's bytes are compared with on every run. *)
 Require Import Coq.Strings.String.
 From Verif Require Import Base.Prim Base.Str Cbor.Codec Cbor.CodecFacts Cbor.DecodeSound Suit.Py Suit.PyFacts Suit.Ty Suit.Interp Suit.Tables Suit.Digest
-                          Suit.Embed Suit.SpecTypes Suit.SpecEnc gen.GenTypes gen.GenSpec.
+                          Suit.Embed Suit.Flat Suit.SpecTypes Suit.SpecEnc gen.GenTypes gen.GenSpec.
 Open Scope Z_scope.
 
 (* 1. the grammar tables of the tool ARE the pinned grammar: which member carries which node type, every `bstr .cbor`
@@ -100,6 +100,34 @@ Proof. intros Hids. exact (kv_written_in_order env rec m emb Hids l b). Qed.
 Print Assumptions members_written_in_order.
 
 (* non-vacuity: the specification-side encoder accepts a concrete command sequence and yields flat code/argument pairs *)
+(* 5. command sequences are FLAT code / argument pairs: a list node declared with a group size serialises to ONE array that is the
+      concatenation of what its elements serialise to, in description order; an element that is a single-entry key-value tuple (a
+      command or parameter with its argument) serialises to the pair  registered code, argument  (any table; references and unions
+      in between are transparent: to_cbor_ref / to_cbor_union) *)
+Theorem grouped_lists_are_flat env f et g xs pss b :
+  Forall2 (fun x p => (let* bb := to_cbor env (S f) et x in dec bb) = Ok (CArray p)) xs pss ->
+  to_cbor env (S (S f)) (TList (Some et) (Some g)) (VSeq xs) = Ok b -> b = ser (CArray (concat pss)).
+Proof. exact (grouped_list_is_flat env f et g xs pss b). Qed.
+Print Assumptions grouped_lists_are_flat.
+
+Theorem a_command_is_code_then_argument env m f c p :
+  cmd_pair env m f c = Ok p -> dec (ser (CArray p)) = Ok (CArray p) ->
+  (let* b := to_cbor env (S f) (TKVTuple m) (cmd_tree c) in dec b) = Ok (CArray p)
+  /\ exists e a, nth_error m (fst c) = Some e /\ p = [cint (key_id e); a].
+Proof.
+  intros Hp Hn. split; [exact (one_command env m f c p Hp Hn)|]. unfold cmd_pair in Hp. destruct (nth_error m (fst c)) as [e|]; [|discriminate].
+  destruct (to_cbor env f (key_ty e) (snd c)) as [b|]; cbn [bind] in Hp; [|discriminate]. destruct (dec b) as [a|]; cbn [bind] in Hp; [|discriminate].
+  injection Hp as <-. exists e, a. auto.
+Qed.
+Print Assumptions a_command_is_code_then_argument.
+
+(* the regenerated grammar declares command sequences exactly that way *)
+Example command_sequence_in_grammar :
+  exists mc md, lookup (s2b "SuitCommandSequence") types = Some (TList (Some (TRef (s2b "SuitCommand"))) (Some 2))
+            /\ lookup (s2b "SuitCommand") types = Some (TUnion [TRef (s2b "SuitCondition"); TRef (s2b "SuitDirective")])
+            /\ lookup (s2b "SuitCondition") types = Some (TKVTuple mc) /\ lookup (s2b "SuitDirective") types = Some (TKVTuple md).
+Proof. eexists. eexists. repeat split; vm_compute; reflexivity. Qed.
+
 Example spec_command_sequence :
   spec_item types (fun _ => Raise ValueError) (fun _ _ => Raise Unsupported) 20 (TRef (s2b "SuitCommandSequence"))
     (CArray [CMap [(CText (s2b "suit-directive-set-component-index"), CUint 1)];
